@@ -430,14 +430,17 @@ def p_snap_scale(s, tol):
     r = snap_scale(s, tol)
     detail = f"snap_scale({s!r}, {tol!r}) = {r!r}"
     ok = True
-    if r != s:
-        if isinstance(r, int):
-            ok = abs(F(s) - r) < F(tol)
-        else:
-            n = round(1 / F(r))
-            ok = n != 0 and r == 1 / n and abs(F(1 / s) - n) < F(tol)
-    elif 0 < tol < 0.5 and abs(s) >= 1 and abs(F(s) - round(F(s))) < F(tol):
-        ok = isinstance(r, int)            # a near-integer scale must have been snapped
+    if isinstance(r, int):
+        ok = abs(F(s) - r) < F(tol)
+    elif r != s:
+        n = round(1 / F(r))
+        ok = n != 0 and r == 1 / n and abs(F(1 / s) - n) < F(tol)
+    elif abs(F(s)) >= 1 - F(tol):
+        ok = not abs(F(s) - round(F(s))) < F(tol)       # a near-integer scale must have been snapped
+    elif abs(F(s)) >= F(tol):
+        si = F(1 / s)                                    # the float reciprocal the code looks at
+        if abs(si - round(si)) < F(tol):                 # 1/s near an integer: must have been snapped to 1/n
+            ok = round(si) != 0 and r == 1 / round(si)
     if ok and 0 < tol < 0.5:
         r2 = snap_scale(r, tol)
         ok = r2 == r
